@@ -50,3 +50,8 @@ Definition oracle_ok (enum : list N -> list N -> list mapping) (H P : graph) : P
 Definition limit {X} (maxr thr : N) (U : list X) : list X :=
   let k := if (maxr =? 0)%N then lenN U else N.min maxr (lenN U) in
   if (thr <? k)%N then [] else firstn (N.to_nat k) U.
+
+(** the threshold [T] is not binding for strategy [strat] on this input: raising it further
+    does not change the (max_results-free) result *)
+Definition not_binding (enum : list N -> list N -> list mapping) (strat : N) (strict : bool) (H P : graph) (T : N) : Prop :=
+  forall T', (T <= T')%N -> find enum (Cfg strat 0 T' strict false) H P = find enum (Cfg strat 0 T strict false) H P.
